@@ -9,7 +9,7 @@ import json, os, re
 from fractions import Fraction as Fr
 from core import *
 
-NEEDS = ["Jacobian", "JacobianProofs", "Corr"]
+NEEDS = ["Jacobian", "JacobianProofs", "JacobianReal", "Corr"]
 GUARD_DELAYED = "no_delayed_factor_in_j0"
 STATE_NAMES = ["x", "z", "v", "w"]
 PARAM_NAMES = ["a", "b", "k"]
